@@ -73,6 +73,9 @@ Definition at_most (parent child : string) : bool :=
 Definition within_ceiling (l : ladder) (parent child : string) : bool :=
   sempty parent || (negb (sempty child) && N.leb (rank l child) (rank l parent)).
 
+Inductive res (A : Type) := Ok (a : A) | Err.
+Arguments Ok {A} a. Arguments Err {A}.
+
 Section WithLadders.
 Variable LD : ladders.
 
@@ -154,8 +157,6 @@ Record eff := mkEff {
   e_space : space; e_principal : principal; e_groups : list string; e_owner : bool;
   e_policy : option policy; e_cands : list candidate }.
 
-Inductive res (A : Type) := Ok (a : A) | Err.
-Arguments Ok {A} a. Arguments Err {A}.
 
 (* governance/store.rs lookups *)
 Definition find_principal (cp : cplane) (id : string) : option principal :=
@@ -420,13 +421,20 @@ Definition allows_of (e : eff) (perm : string) (r : resource) (a : authctx) (now
          (filter (fun s => String.eqb (st_effect s) "allow" && statement_matches e s perm r a now)
                  (statements_of e)).
 
+(* a resource that names something but no classification carries the Space default *)
+Definition effective_resource (e : eff) (r0 : resource) : resource :=
+  if is_space_scope r0 || negb (sempty (r_class r0)) then r0
+  else mkRes (r_kind r0) (r_ref r0) (default_classification e) (r_elem r0).
+
+Definition matching_allow_statements (e : eff) (perm : string) (r : resource) (a : authctx) (now : string) :=
+  filter (fun s => String.eqb (st_effect s) "allow" && statement_matches e s perm r a now) (statements_of e).
+
 Definition authorize (e : eff) (perm : string) (r0 : resource) (a : authctx) (now : string) : authz :=
   let deny := mkAuthz Deny constr_default (baseline_obligations e perm) [] false in
   if negb (String.eqb (p_status (e_principal e)) ACTIVE) then deny
   else if String.eqb (s_status (e_space e)) "suspended" then deny
   else
-    let r := if is_space_scope r0 || negb (sempty (r_class r0)) then r0
-             else mkRes (r_kind r0) (r_ref r0) (default_classification e) (r_elem r0) in
+    let r := effective_resource e r0 in
     if existsb (fun s => String.eqb (st_effect s) "deny" && statement_matches e s perm r a now)
                (statements_of e)
     then deny
@@ -481,7 +489,7 @@ Definition tighten (g : option N) (c : constr) : option N :=
   | None => g
   | Some l => Some (match g with None => l | Some cur => N.min cur l end)
   end.
-Definition admit (e : eff) (a : authctx) (now : string) (read_origin : bool)
+Definition admit_one (e : eff) (a : authctx) (now : string) (read_origin : bool)
            (g : option N) (x : option element) : option view * option N :=
   match x with
   | None => (None, g)
